@@ -849,13 +849,25 @@ class Executor:
                 cands.append(f)
         return cands
 
+    def origin(self, st, key):
+        """where an aggregate value came from: follows copy aliases (longest prefix first) to the place or call result"""
+        for _ in range(32):
+            best = None
+            for a in st.alias:
+                if (key == a or key[:len(a) + 1] in (a + ".", a + "@", a + "#", a + "[")) and (best is None or len(a) > len(best)):
+                    best = a
+            if best is None:
+                return key
+            key = st.alias[best] + key[len(best):]
+        return key
+
     def describe_arg(self, st, v):
         if isinstance(v, Val):
             return ("val", v)
         if v[0] == "ref":
             return ("ref", v[1].key())
         if v[0] == "agg":
-            return ("agg", v[1].key())
+            return ("agg", self.origin(st, v[1].key()))
         return ("other", repr(v))
 
     def builtin(self, short, callee, args, st=None):
